@@ -119,6 +119,9 @@ func (f *g2lFn) buildLoop(sp *loopSpec, rest kont) []string {
 		resType = "(Ctl " + f.retType + " " + stType + ")"
 	}
 	loop := &g2lLoop{name: name, hasRet: sp.hasRet, resType: resType}
+	if f.effType != "" {
+		sp.captured = append(sp.captured, nameType{"effLog", "(List " + f.effType + ")"})
+	}
 	capArgs := []string{}
 	capParams := []string{}
 	for _, c := range sp.captured {
@@ -193,7 +196,7 @@ func (f *g2lFn) buildLoop(sp *loopSpec, rest kont) []string {
 	if len(stNames) == 0 {
 		nextPat = "_"
 	}
-	m := fmt.Sprintf("match %s with\n| Ctl.ret %s => %s\n| Ctl.next %s => %s", r, rv, f.paren(f.retTerm(rv)), nextPat, f.paren(rest()))
+	m := fmt.Sprintf("match %s with\n| Ctl.ret %s => %s\n| Ctl.next %s => %s", r, rv, f.paren(f.retRaw(rv)), nextPat, f.paren(rest()))
 	return append(lines, m)
 }
 
